@@ -28,7 +28,12 @@ func main() {
 	verbose := flag.Bool("v", false, "print every obligation")
 	noEvidence := flag.Bool("no-evidence", false, "do not write evidence / reports (used for scratch trees)")
 	only := flag.String("rule", "", "run only this rule (with -property)")
+	manifest := flag.Bool("manifest", false, "print MANIFEST.json generated from the property table")
 	flag.Parse()
+	if *manifest {
+		printManifest()
+		return
+	}
 
 	if *list {
 		for _, p := range rules.Properties() {
@@ -223,4 +228,78 @@ func doReplay(path, repo, verif string) int {
 	}
 	fmt.Fprintln(os.Stderr, "unknown property/rule in report:", strings.TrimSpace(rep.Property+" "+rep.Rule))
 	return 2
+}
+
+func printManifest() {
+	type lvl struct {
+		Category  string `json:"category"`
+		Text      string `json:"text"`
+		DesignRef string `json:"design_ref"`
+	}
+	type check struct {
+		PropertyID  string `json:"property_id"`
+		QuickCmd    string `json:"quick_cmd"`
+		ThoroughCmd string `json:"thorough_cmd"`
+		Evidence    string `json:"evidence_file"`
+		Replay      string `json:"replay_cmd_template"`
+		Engine      string `json:"engine"`
+		Level       lvl    `json:"level_claimed"`
+		LevelNote   string `json:"level_note"`
+		Technique   string `json:"technique"`
+	}
+	type na struct {
+		PropertyID string `json:"property_id"`
+		Reason     string `json:"reason"`
+	}
+	var checks []check
+	claimed := map[string]bool{}
+	ps := rules.Properties()
+	sort.Slice(ps, func(i, j int) bool { return ps[i].ID < ps[j].ID })
+	for _, p := range ps {
+		claimed[p.ID] = true
+		checks = append(checks, check{
+			PropertyID:  p.ID,
+			QuickCmd:    "bin/mtverif -property " + p.ID + " -tier quick",
+			ThoroughCmd: "bin/mtverif -property " + p.ID + " -tier thorough",
+			Evidence:    "/verif/evidence/" + p.ID + ".json",
+			Replay:      "bin/mtverif -replay {path}",
+			Engine:      "mtverif",
+			Level:       lvl{p.Level, p.LevelText, p.DesignRef},
+			LevelNote:   strings.Join(rules.Assumptions, "; "),
+			Technique:   p.Technique,
+		})
+	}
+	nas := []na{}
+	for _, n := range rules.NotApplicable {
+		if !claimed[n[0]] {
+			nas = append(nas, na{n[0], n[1]})
+		}
+	}
+	m := map[string]interface{}{
+		"version":   1,
+		"setup_cmd": "cd /verif && env -u GOWORK GOFLAGS=-mod=mod GOPROXY=off GOSUMDB=off GOTOOLCHAIN=local go build -o bin/mtverif ./cmd/mtverif",
+		"hooks": map[string]interface{}{
+			"guard":            "verif",
+			"enable":           "none: the checks read /repo's source; nothing is instrumented and no build tag is needed",
+			"baseline_off_cmd": "cd /repo && GOPROXY=off GOSUMDB=off GOTOOLCHAIN=local go test -mod=mod -json -vet=off -count=1 -timeout 25m ./...",
+			"source_commits":   []string{},
+			"add_only":         true,
+		},
+		"engines": []map[string]interface{}{{
+			"name": "mtverif", "path": "/verif/cmd/mtverif",
+			"serves_properties": func() []string {
+				var o []string
+				for _, p := range ps {
+					o = append(o, p.ID)
+				}
+				return o
+			}(),
+			"kind_free_text": "repository-specific static analyser over go/types + go/ssa (x/tools v0.29.0): tree model, linear-fact bounds prover, lockset/origin analysis, finite-domain evaluator, CFG typestate rules, lock-step prefix-monotonicity",
+		}},
+		"checks":         checks,
+		"not_applicable": nas,
+		"notes":          "All checks are static: they load /repo's current working tree (go/packages, non-test), build SSA and apply the rules of DESIGN.md. Exit 0 = every obligation discharged; exit 1 + VIOLATION line = a rule reports a construct; exit 2 (no VIOLATION) = the analyser could not set a rule up. Fixed defects are listed in known_findings.txt.",
+	}
+	b, _ := json.MarshalIndent(m, "", " ")
+	fmt.Println(string(b))
 }
